@@ -4,6 +4,7 @@ package app
 
 import (
 	"io"
+	"strconv"
 
 	"github.com/f1bonacc1/process-compose/src/pclog"
 	"github.com/f1bonacc1/process-compose/src/types"
@@ -83,5 +84,40 @@ func VerifC11_Lines() {
 			verifAssert("line.content", got[i] == want[i])
 		}
 	}
+	verifReach("end")
+}
+
+// C11 (in-memory log up to the configured length): a process that writes more lines than the
+// log holds - across the point where the buffer drops its oldest lines - still has its most
+// recent log_length lines there, each once, in order, the very last one included.
+func VerifC11_Window() {
+	verifUnwind(1000)
+	size := []int{0, 1, 3}[verifChooseK("log.length", 3)]
+	// around the first and the second trimming point of the buffer (every 100 lines beyond the length)
+	extra := []int{99, 100, 101, 102, 200, 201, 202}[verifChooseK("lines.beyond.length", 7)]
+	n := size + extra
+	pipe := &vScriptPipe{}
+	for i := 0; i < n; i++ {
+		pipe.lines = append(pipe.lines, "l"+strconv.Itoa(i))
+	}
+	conf := vConf("p", nil)
+	conf.ReadyLogLine = "zz"
+	p := &Process{procConf: &conf, procState: types.NewProcessState(&conf), logBuffer: pclog.NewLogBuffer(size), logger: pclog.NewNilLogger()}
+	done := make(chan struct{})
+	p.handleOutput(pipe, "stdout", p.handleInfo, done) // REAL code
+	got := p.logBuffer.GetLogRange(size, 0)            // the most recent log_length lines
+	verifObserveInt("lines.returned", len(got))
+	verifAssert("window.has.log_length.lines", len(got) == size)
+	for i := 0; i < len(got) && i < size; i++ {
+		if got[i] != "l"+strconv.Itoa(n-size+i) {
+			verifShape("length=" + strconv.Itoa(size) + ",lines=" + strconv.Itoa(n))
+			verifFail("most.recent.lines.not.in.the.log.in.order")
+			break
+		}
+	}
+	// and the very last line written is the newest entry of the log, whatever the length
+	all := p.logBuffer.GetLogRange(n+1000, 0)
+	verifAssert("last.line.is.the.newest.entry", len(all) >= 1 && all[len(all)-1] == "l"+strconv.Itoa(n-1))
+	verifAssert("never.unboundedly.more", len(all) <= size+100)
 	verifReach("end")
 }
